@@ -262,6 +262,19 @@ class Check:
                 spec.loader.exec_module(mod)
                 return mod
             changed = []
+            self.source_tie_unavailable = []
+
+            def body_translator(fn):
+                """the two translators of function BODIES work on a subset of Python: a function written outside that subset cannot be
+                re-translated (that is not a broken proof - the definition to prove something about does not exist); the tie of those
+                functions is then the hand-written model + correspondence alone, and the run says so"""
+                try:
+                    return fn()
+                except Exception as e_:  # noqa
+                    if type(e_).__name__ == "Untranslatable":
+                        self.source_tie_unavailable.append(str(e_))
+                        return None
+                    raise
             if self.pid in ("C14", "C05", "C18", "C04"):
                 t = load("gen_lean_tables")
                 if self.pid == "C04":
@@ -276,13 +289,13 @@ class Check:
                 changed += [load("gen_footprints").main()["changed"]]
             if self.pid in ("C12", "C03"):
                 # loop functions of pyrepseq/distance.py re-translated into Lean list comprehensions (C12_source_*, C03_source_*)
-                changed += [load("gen_loops").main()]
+                changed += [body_translator(load("gen_loops").main)]
             if self.pid == "C17":
                 # powerlaw_sample and the closed forms of powerlaw_mle_alpha re-translated over the reals (C17_source_*)
-                changed += [load("gen_formulas").gen_real()]
+                changed += [body_translator(load("gen_formulas").gen_real)]
             if self.pid in ("C02", "C06", "C16"):
                 # formulas of pyrepseq/stats.py re-translated into Lean definitions (Cxx_source_* prove they are the models)
-                changed += [load("gen_formulas").gen_group("pc" if self.pid != "C16" else "richness")]
+                changed += [body_translator(lambda: load("gen_formulas").gen_group("pc" if self.pid != "C16" else "richness"))]
             if any(changed):
                 self.notes.append(f"Generated/*.lean rewritten from /repo: {changed}")
         except Exception as e:  # noqa
@@ -297,6 +310,12 @@ class Check:
             self.broken_obligations.append("banned-token: " + "; ".join(banned[:5]))
         thms, axioms, cmd, (rc, raw) = audit(self.pid)
         self.checker_cmd = cmd
+        if getattr(self, "source_tie_unavailable", None):
+            # the Generated file of this group is stale: its `_source_` theorems say nothing about the current source and are not counted
+            stale = [t for t in thms if "_source_" in t]
+            thms = [t for t in thms if "_source_" not in t]
+            self.notes.append(f"SOURCE TIE UNAVAILABLE ({'; '.join(self.source_tie_unavailable)[:400]}): {len(stale)} theorems about the translated "
+                              f"definitions are not counted ({', '.join(stale)[:600]}); decided by the hand-written model and the correspondence")
         self.obligations = len(thms)
         good = 0
         for t in thms:
@@ -366,6 +385,7 @@ class Check:
             "exhaustive": self.exhaustive,
             "theorem_axioms": getattr(self, "axioms", {}),
             "broken_obligations": self.broken_obligations,
+            "source_tie_unavailable": getattr(self, "source_tie_unavailable", []),
             "known_findings_hit": self.known_hits,
             "repo_fingerprint": repo_fingerprint(),
             "notes": self.notes[-10:],
@@ -390,6 +410,8 @@ class Check:
             print(f"VIOLATION property={self.pid} replay={rel}{tail}")
         if self.violations:
             return EXIT_VIOLATION
+        for m_ in getattr(self, "source_tie_unavailable", []):
+            print(f"SOURCE-TIE-UNAVAILABLE property={self.pid} {m_[:300]} (not re-translatable: decided by the hand-written model + correspondence)")
         print(f"OK property={self.pid} tier={self.tier} seed={self.seed} obligations={self.obligations} "
               f"discharged={self.discharged} evaluations={self.evaluations} "
               f"nontrivial={len(self.nontrivial)} wall={wall:.1f}s")
